@@ -2,9 +2,13 @@ use std::any::type_name;
 use std::cell::UnsafeCell;
 use std::marker::PhantomPinned;
 use std::panic::{RefUnwindSafe, UnwindSafe};
+#[cfg(not(folo_verif))]
 use std::sync::atomic::{AtomicU8, Ordering};
 use std::task::Waker;
 use std::{fmt, ptr};
+
+#[cfg(folo_verif)]
+use crate::verif_sync::atomic::{AtomicU8, Ordering};
 
 // Lifecycle phase tracked by the atomic `lifecycle` field on Awaiter.
 // Using an atomic outside UnsafeCell allows the poll path to check
